@@ -69,6 +69,63 @@ Proof.
   apply andb_true_iff. split; [apply Nat.leb_le; lia|]. apply (IH (S a)).
 Qed.
 
+(* strictly ascending lists *)
+Fixpoint sorted_lt (l : list nat) : bool :=
+  match l with
+  | [] => true
+  | x :: t => match t with [] => true | y :: _ => (x <? y) && sorted_lt t end
+  end.
+
+Lemma sorted_lt_tail : forall x t, sorted_lt (x :: t) = true -> sorted_lt t = true.
+Proof. intros x [|y t] H; [reflexivity|]. simpl in H. apply andb_true_iff in H. tauto. Qed.
+
+Lemma sorted_lt_all : forall t x, sorted_lt (x :: t) = true -> Forall (fun y => x < y) t.
+Proof.
+  induction t as [|y t IH]; intros x H; constructor.
+  - simpl in H. apply andb_true_iff in H as [H _]. apply Nat.ltb_lt in H. assumption.
+  - assert (Hxy : x < y) by (simpl in H; apply andb_true_iff in H as [H _]; apply Nat.ltb_lt in H; assumption).
+    pose proof (IH y (sorted_lt_tail _ _ H)) as F.
+    eapply Forall_impl; [|exact F]. simpl. intros; lia.
+Qed.
+
+Lemma sorted_lt_le : forall l, sorted_lt l = true -> sorted_le l = true.
+Proof.
+  induction l as [|x t IH]; intro H; [reflexivity|].
+  destruct t as [|y t']; [reflexivity|].
+  change (sorted_le (x :: y :: t')) with ((x <=? y) && sorted_le (y :: t')).
+  pose proof (sorted_lt_tail _ _ H) as Ht.
+  simpl in H. apply andb_true_iff in H as [H _]. apply Nat.ltb_lt in H.
+  apply andb_true_iff. split; [apply Nat.leb_le; lia|apply IH; assumption].
+Qed.
+
+Lemma has_dup_sorted_lt : forall l, sorted_lt l = true -> has_dup l = false.
+Proof.
+  induction l as [|x t IH]; intro H; [reflexivity|].
+  simpl. rewrite (IH (sorted_lt_tail _ _ H)). rewrite orb_false_r.
+  pose proof (sorted_lt_all _ _ H) as F. unfold memb.
+  destruct (existsb (Nat.eqb x) t) eqn:E; [|reflexivity].
+  apply existsb_exists in E as (y & Hy & Exy). apply Nat.eqb_eq in Exy. subst y.
+  rewrite Forall_forall in F. specialize (F x Hy). lia.
+Qed.
+
+Lemma sort_nat_sorted_lt : forall l, sorted_lt l = true -> sort_nat l = l.
+Proof.
+  induction l as [|x t IH]; intro H; [reflexivity|].
+  unfold sort_nat in *. simpl. rewrite (IH (sorted_lt_tail _ _ H)).
+  destruct t as [|y t']; [reflexivity|].
+  simpl in H. apply andb_true_iff in H as [H _]. simpl. rewrite H. reflexivity.
+Qed.
+
+Lemma sorted_lt_length : forall l a n, sorted_lt l = true -> (forall m, In m l -> a <= m < n) -> length l <= n - a.
+Proof.
+  induction l as [|x t IH]; intros a n H Hr; simpl; [lia|].
+  assert (Hx : a <= x < n) by (apply Hr; left; reflexivity).
+  pose proof (sorted_lt_all _ _ H) as F. rewrite Forall_forall in F.
+  assert (L : length t <= n - S x).
+  { apply IH; [apply (sorted_lt_tail _ _ H)|]. intros m Hm. split; [apply F; assumption|]. apply Hr. right. assumption. }
+  lia.
+Qed.
+
 Section GaussEntries.
   Variable K : Type.
   Variable k0 : K.
@@ -153,6 +210,20 @@ Section GaussEntries.
       replace (S (S n') <? 2) with false by (symmetry; apply Nat.ltb_ge; lia).
       replace (S (S n') <=? m) with false by (symmetry; apply Nat.leb_gt; lia).
       simpl. eexists; reflexivity.
+  Qed.
+
+  (* when it answers: ascending, in range, not longer than the register *)
+  Lemma reduced_gaussian_when : forall modes,
+    sorted_le modes = true -> (forall m, In m modes -> m < n) -> length modes <= n ->
+    reduced_gaussian K mu cov n modes = Ok (sel_mu K mu (gidx n modes), sel_cov K cov (gidx n modes)).
+  Proof.
+    intros modes Hs Hr HL. unfold reduced_gaussian.
+    destruct (list_eqb modes (seq 0 n)) eqn:E.
+    - apply list_eqb_eq in E. subst modes. rewrite gidx_full. reflexivity.
+    - rewrite Hs. simpl.
+      replace (n <? length modes) with false by (symmetry; apply Nat.ltb_ge; assumption).
+      destruct (existsb (fun m => n <=? m) modes) eqn:Ex; [|reflexivity].
+      apply existsb_exists in Ex as (m & Hm & Hge). apply Nat.leb_le in Hge. specialize (Hr m Hm). lia.
   Qed.
 
   Lemma reduced_gaussian_single : forall k, k < n ->
@@ -247,11 +318,26 @@ Section GaussField.
     rewrite E1, E2, Hcs. field. split; assumption.
   Qed.
 
-  (* parity_expectation as coded does not look at WHICH modes were requested *)
-  Lemma parity_coded_ignores_modes : forall G hb2 modes1 modes2,
-    length modes1 = length modes2 -> has_dup modes1 = false -> has_dup modes2 = false ->
-    parity_coded K k1 kmul mu cov n G hb2 modes1 = parity_coded K k1 kmul mu cov n G hb2 modes2.
+  (* parity_expectation(modes) (repaired code): for an ascending duplicate-free in-range list it is the
+     Gaussian parity formula applied to the reduced state of exactly those modes *)
+  Lemma parity_expectation_subset : forall G hb2 modes,
+    sorted_lt modes = true -> (forall m, In m modes -> m < n) ->
+    parity_expectation K k1 kmul mu cov n G hb2 modes = Ok (parity_spec K k1 kmul mu cov n G hb2 modes).
   Proof.
-    intros G hb2 m1 m2 HL H1 H2. unfold parity_coded. rewrite H1, H2, HL. reflexivity.
+    intros G hb2 modes Hs Hr. unfold parity_expectation, parity_spec.
+    rewrite (has_dup_sorted_lt _ Hs), (sort_nat_sorted_lt _ Hs).
+    rewrite (reduced_gaussian_when K mu cov n modes (sorted_lt_le _ Hs) Hr).
+    - reflexivity.
+    - pose proof (sorted_lt_length modes 0 n Hs) as L. rewrite Nat.sub_0_r in L. apply L.
+      intros m Hm. split; [lia|apply Hr; assumption].
+  Qed.
+
+  (* the order in which the modes are listed is irrelevant (parity operators commute) *)
+  Lemma parity_expectation_order : forall G hb2 modes1 modes2,
+    has_dup modes1 = false -> has_dup modes2 = false ->
+    sort_nat modes1 = sort_nat modes2 -> length modes1 = length modes2 ->
+    parity_expectation K k1 kmul mu cov n G hb2 modes1 = parity_expectation K k1 kmul mu cov n G hb2 modes2.
+  Proof.
+    intros G hb2 m1 m2 H1 H2 Hs HL. unfold parity_expectation. rewrite H1, H2, Hs, HL. reflexivity.
   Qed.
 End GaussField.
